@@ -67,7 +67,7 @@ DEFS = ("ORACLE_FP", "ORACLE_EP", "ORACLE_MD", "ORACLE_EXTRA1=ops_sig", "ORACLE_
 
 
 def _exe(ctx, cfg="base"):
-    return ctx.oracle(cfg, defs=DEFS, sources=SRC, tag="_cp")
+    return ctx.oracle(cfg, defs=DEFS, sources=SRC, tag="_sig")
 
 
 def ask(exe, pre, lines):
